@@ -101,6 +101,20 @@ def r57(F):
                        "Ok(false) forces the caller's verdict" if ok else
                        "verdict dropped: Ok(false) edge reaches the exit without setting the caller's verdict",
                        {"switch_blocks": [s[0] for s in sw], "verdict_locals": cand})
+                # the Err case (a path that could not be visited at all) is a failure too, unless it is propagated with `?`
+                ees = util.err_edges(fn, dl)
+                if ees:
+                    prop = all(any(fn.term(x)["k"] == "call" and "from_residual" in callee(fn.term(x)) for x in cfg.reachable(fn, e)) and
+                               not (cfg.reachable(fn, e) & set(vblocks)) for e in ees) and fn.local_ty(0).startswith("core::result::Result")
+                    oke = prop or all(util.must_pass(fn, e, vblocks) for e in ees)
+                    r.inst(key + ":Err", fn.where(b), oke,
+                           "an Err from %s is propagated or forces the caller's verdict" % c.split("::")[-1] if oke else
+                           "verdict dropped: an Err from %s (a directory that could not be read) is ignored and the run can still exit 0"
+                           % c.split("::")[-1])
+                else:
+                    r.inst(key + ":Err", fn.where(b), False,
+                           "verdict dropped: the Err case of %s is never looked at (`if let Ok(false) = ..`): a path that could not be "
+                           "visited is skipped silently and the run can still exit 0" % c.split("::")[-1])
     return r
 
 
@@ -337,4 +351,21 @@ def r60(F):
     return r
 
 
-RULES = [r57, r58, r59, r60]
+def r58e(F):
+    r = RuleResult("R58e", "building a file evaluates it",
+                   "every successful return of FileBuilder::build has passed eval_ops (the run of the file's own code), after the "
+                   "per-file reset of the assertion collector: a shortcut that returns a value the import cache already holds skips the "
+                   "file's assertions, which were recorded into the importer's report and discarded by the reset", floor=1)
+    fn = F.fn("ucglib::build::FileBuilder::build")
+    ev = {b for b, t in fn.calls() if callee(t).endswith("FileBuilder::eval_ops") or callee(t) == "ucglib::build::opcode::vm::VM::run"}
+    need(ev, "FileBuilder::build does not call eval_ops")
+    oks = [b for b, j, pl, rv, m in fn.assigns() if pl["l"] == 0 and not pl["p"] and rv["k"] == "agg" and rv.get("variant") == "Ok"]
+    need(oks, "FileBuilder::build has no Ok return")
+    ok = all(ob not in cfg.reachable(fn, 0, removed=ev) for ob in oks)
+    r.inst("FileBuilder::build:evaluates", fn.where(sorted(ev)[0]), ok, "Ok only after eval_ops" if ok else
+           "FileBuilder::build can return Ok without evaluating the file (a cached value?): a *_test.ucg that was imported earlier in the "
+           "same invocation reports Pass with an empty log")
+    return r
+
+
+RULES = [r57, r58, r59, r60, r58e]
